@@ -258,6 +258,7 @@ def build():
         'new': A(ret='r', ensures=[('def', 'r == mk_ast(node, loc)')], props=('C18', 'C01')),
         'range': A(ret='r', ensures=[('def', 'r == a_loc(*self)')], props=('C18', 'C01')),
     }, others='stub')
+    S.grammar_ambient(U)
     U.extract('rscel/src/program/program_details.rs', 'impl ProgramDetails', fns=S.stubbed(S.DETAILS))
     U.extract(S.PR, 'impl From<ByteCode> for PreResolvedCodePoint', fns={'from': A(ret='r', ensures=[('def', 'r == PreResolvedCodePoint::Bytecode(value)')], props=('C10', 'C01'))})
     U.extract(S.PR, 'impl PreResolvedByteCode', fns={
@@ -291,6 +292,6 @@ def build():
             ('keeps_the_identifiers', 'r.details@ == member_prime_node.details@', ('C17',)),
             ('a_constant_only_if_running_the_same_code_at_compile_time_succeeds', 'node_view(r.inner) == eval_or_keep(self.bindings, code_of(node_view(member_prime_node.inner)))', ('C09', 'C10'))],
             props=('C17', 'C09', 'C10', 'C01')),
-    })
+    }, others='stub', skip=('with_tokenizer', 'compile'))
     U.raw(C.FOOTER, 'footer')
     return U
